@@ -38,6 +38,9 @@ def header(bare_default):
 From Gen Require Import C08Facts.
 Open Scope string_scope.
 Definition check := WindowCheck.check order_flags {bare_default} get_value_and_side.
+Definition checkp (t : frame * list sstep * wfun * option (list row)) : string :=
+  let '(a, b, c, d) := t in
+  WindowCheck.check_plan order_flags {bare_default} get_value_and_side part_replaces order_replaces a b c d.
 """
 
 
@@ -104,6 +107,108 @@ def spec_sf(sp, F, Window, decoy=True):
 
 def spec_str(sp, f):
     return f"{f} over partitionBy{tuple(sp['part'])} orderBy{[(c + '.' + m) if m != 'bare' else c for c, m in sp['order']]} frame={sp['frame']}"
+
+
+DECOY = {"part": [["k"], ["v", "p"], []], "order": [[("v", "desc")], [("id", "bare")], [("p", "asc_nulls_last"), ("v", "asc")]],
+         "frame": [("rows", -1, 1), ("range", U_PRE, 0), ("rows", 0, U_FOL)]}
+
+
+def make_plan(rnd, sp):
+    """The builder calls a user makes to get spec `sp` under Spark's semantics (the last call of each kind decides): the
+    final components in the usual or a shuffled order, with earlier calls of the same kind (with other arguments) thrown in."""
+    final = []
+    if sp["part"]:
+        final.append(("part", list(sp["part"])))
+    if sp["order"]:
+        final.append(("order", [tuple(x) for x in sp["order"]]))
+    if sp["frame"] is not None:
+        final.append(("frame", tuple(sp["frame"])))
+    if rnd.random() < 0.5:
+        rnd.shuffle(final)
+    plan = []
+    for kind, arg in final:
+        if rnd.random() < 0.3:
+            plan.insert(rnd.randrange(len(plan) + 1), (kind, rnd.choice([d for d in DECOY[kind] if d != arg])))
+        plan.append((kind, arg))
+    if not sp["part"] and rnd.random() < 0.15:
+        # partitionBy() with no columns resets an earlier partitioning
+        i = rnd.randrange(len(plan) + 1)
+        plan.insert(i, ("part", []))
+        plan.insert(rnd.randrange(i + 1), ("part", ["k"]))
+    return plan
+
+
+def plan_final(plan):
+    sp = {"part": [], "order": [], "frame": None}
+    for kind, arg in plan:
+        sp[kind] = arg
+    return sp
+
+
+def plan_coq(plan):
+    out = []
+    for kind, arg in plan:
+        if kind == "part":
+            out.append("(SPart " + listlit([f"(ECol {strlit(c)})" for c in arg]) + ")")
+        elif kind == "order":
+            out.append("(SOrder " + listlit([f"(ECol {strlit(c)}, {METH_COQ[m]})" for c, m in arg]) + ")")
+        else:
+            out.append(f"(SFrame ({boollit(arg[0] == 'rows')}, {zlit(arg[1])}, {zlit(arg[2])}))")
+    return listlit(out)
+
+
+def plan_sf(plan, F, Window, decoy=True):
+    """Make the builder calls of `plan`, starting at the Window class; after every call a further spec is derived from the
+    intermediate object and thrown away (the builder methods must leave the object they are called on untouched)."""
+    w = Window
+    for kind, arg in plan:
+        if kind == "part":
+            w = w.partitionBy(*arg)
+        elif kind == "order":
+            w = w.orderBy(*[c if m == "bare" else getattr(F.col(c), m)() for c, m in arg])
+        else:
+            w = getattr(w, "rowsBetween" if arg[0] == "rows" else "rangeBetween")(arg[1], arg[2])
+        if decoy:
+            w.orderBy(F.col("v").desc()).rowsBetween(-1, 1)
+            w.partitionBy("k").rangeBetween(Window.unboundedPreceding, Window.currentRow)
+    if w is Window:
+        w = Window.partitionBy()
+    return w
+
+
+def plan_str(plan, f):
+    calls = []
+    for kind, arg in plan:
+        if kind == "part":
+            calls.append(f"partitionBy{tuple(arg)}")
+        elif kind == "order":
+            calls.append("orderBy(" + ", ".join((c + "." + m + "()") if m != "bare" else repr(c) for c, m in arg) + ")")
+        else:
+            calls.append(f"{arg[0]}Between({arg[1]}, {arg[2]})")
+    return f"{f} over Window." + ".".join(calls or ["partitionBy()"])
+
+
+PRE_OPS = [None, None, None, "where_v_notnull", "orderby_limit3", "orderby_desc_limit4", "where_then_select", "distinct",
+           "withcolumn_then_where"]
+
+
+def apply_pre(df, pre, F):
+    """a frame derived by earlier steps of a chain; its rows (collected separately) are the window's input"""
+    if pre is None:
+        return df
+    if pre == "where_v_notnull":
+        return df.where(F.col("v").isNotNull())
+    if pre == "orderby_limit3":
+        return df.orderBy("id").limit(3)
+    if pre == "orderby_desc_limit4":
+        return df.orderBy(F.col("id").desc()).limit(4)
+    if pre == "where_then_select":
+        return df.where(F.col("id") > 1).select("v", "k", "p", "id")
+    if pre == "distinct":
+        return df.distinct()
+    if pre == "withcolumn_then_where":
+        return df.withColumn("z", F.col("id") * 2).where(F.col("z") != 4).drop("z")
+    raise ValueError(pre)
 
 
 def gen_cases(rnd, n):
@@ -192,47 +297,78 @@ def run(ctx: core.Ctx):
         ({"part": ["p"], "order": [("k", "desc_nulls_first")], "frame": ("range", U_PRE, 0)}, ("max", "k")),
     ]
     items, metas, seen = [], [], set()
-    hist_fun, hist_frame, hist_meth, n_raise = {}, {}, {}, 0
-    for sp, f in corpus + cases:
+    hist_fun, hist_frame, hist_meth, hist_pre, hist_plan, n_raise = {}, {}, {}, {}, {}, 0
+    rnd2 = random.Random(ctx.seed * 7919 + 17)
+    post_bad = []
+    for ci, (sp, f) in enumerate(corpus + cases):
+        plan = make_plan(rnd2, sp) if ci >= len(corpus) else make_plan(random.Random(0), sp)
+        fin = plan_final(plan)
+        assert (fin["part"], [tuple(x) for x in fin["order"]], fin["frame"]) == \
+            (list(sp["part"]), [tuple(x) for x in sp["order"]], sp["frame"] if sp["frame"] is None else tuple(sp["frame"])), (plan, sp)
+        pre = rnd2.choice(PRE_OPS)
+        use_withcolumn = rnd2.random() < 0.4
+        post = rnd2.random() < 0.25
         for tname, rows in TABLES.items():
-            key = (json.dumps(sp, sort_keys=True), f, tname)
+            key = (json.dumps(plan, sort_keys=True), f, tname, pre)
             if key in seen:
                 continue
             seen.add(key)
             impl, impl2, exc = "None", "None", None
+            in_rows = rows
             try:
-                df = session.createDataFrame(rows, SCHEMA)
-                w = spec_sf(sp, F, Window)
+                df0 = session.createDataFrame(rows, SCHEMA)
+                df = apply_pre(df0, pre, F)
+                if pre is not None:
+                    in_rows = [(r["id"], r["p"], r["k"], r["v"]) for r in df.collect()]
+                w = plan_sf(plan, F, Window)
                 # the same spec object is used for a second window column (count(*)), before or after the one under test
-                if len(items) % 2:
-                    sel = [F.count("*").over(w).alias("w2"), fun_sf(f, F).over(w).alias("w")]
+                if use_withcolumn:
+                    d = df.withColumn("w", fun_sf(f, F).over(w)).withColumn("w2", F.count("*").over(w))
+                elif len(items) % 2:
+                    d = df.select("id", "p", "k", "v", F.count("*").over(w).alias("w2"), fun_sf(f, F).over(w).alias("w"))
                 else:
-                    sel = [fun_sf(f, F).over(w).alias("w"), F.count("*").over(w).alias("w2")]
-                got = df.select("id", "p", "k", "v", *sel).collect()
+                    d = df.select("id", "p", "k", "v", fun_sf(f, F).over(w).alias("w"), F.count("*").over(w).alias("w2"))
+                got = d.collect()
                 impl = "(Some " + listlit([rel.row_coq((r["id"], r["p"], r["k"], r["v"], r["w"])) for r in got]) + ")"
                 impl2 = "(Some " + listlit([rel.row_coq((r["id"], r["p"], r["k"], r["v"], r["w2"])) for r in got]) + ")"
+                if post and got:
+                    # a later step of the chain must see the window column as computed, and must not disturb it
+                    later = d.where(F.col("id") >= 3).withColumn("y", F.col("id") + 1).collect()
+                    want = sorted((repr((r["id"], r["p"], r["k"], r["v"], r["w"], r["w2"], r["id"] + 1)) for r in got if r["id"] >= 3))
+                    have = sorted(repr((r["id"], r["p"], r["k"], r["v"], r["w"], r["w2"], r["y"])) for r in later)
+                    if want != have:
+                        post_bad.append({"call": plan_str(plan, f), "plan": plan, "fun": list(f), "table": tname, "rows": rows, "pre": pre,
+                                         "then": "where(id >= 3).withColumn('y', id + 1)", "expected": want, "actual": have})
             except Exception as ex:
                 exc = f"{type(ex).__name__}: {str(ex)[:200]}"
                 n_raise += 1
-            items.append(f"(mkWCase {rel.frame_coq(COLS, rows)} {spec_coq(sp)} {fun_coq(f)} {impl})")
-            metas.append({"spec": sp, "fun": f, "table": tname, "exc": exc})
+            items.append(f"({rel.frame_coq(COLS, in_rows)}, {plan_coq(plan)}, {fun_coq(f)}, {impl})")
+            metas.append({"spec": sp, "plan": plan, "pre": pre, "in_rows": in_rows, "fun": f, "table": tname, "exc": exc,
+                          "withColumn": use_withcolumn})
             if exc is None and tname != "empty":
-                items.append(f"(mkWCase {rel.frame_coq(COLS, rows)} {spec_coq(sp)} WCountStar {impl2})")
-                metas.append({"spec": sp, "fun": ("count_star",), "table": tname, "exc": None, "second_column": True})
+                items.append(f"({rel.frame_coq(COLS, in_rows)}, {plan_coq(plan)}, WCountStar, {impl2})")
+                metas.append({"spec": sp, "plan": plan, "pre": pre, "in_rows": in_rows, "fun": ("count_star",), "table": tname,
+                              "exc": None, "second_column": True, "withColumn": use_withcolumn})
             hist_fun[f[0]] = hist_fun.get(f[0], 0) + 1
             fk = "default" if sp["frame"] is None else sp["frame"][0]
             hist_frame[fk] = hist_frame.get(fk, 0) + 1
+            hist_pre[str(pre)] = hist_pre.get(str(pre), 0) + 1
+            pk = "/".join(k for k, _ in plan) or "-"
+            hist_plan[pk] = hist_plan.get(pk, 0) + 1
             for _, m in sp["order"]:
                 hist_meth[m] = hist_meth.get(m, 0) + 1
+    for pb in post_bad[:3]:
+        ctx.deviation("C08/window-column-disturbed-by-later-step", "a where/withColumn after the window column changes its values or rows", pb)
     ctx.log(f"{len(items)} cases, {n_raise} raised")
-    res = ctx.cases("c08", hdr, items, per_file=150, result_ty="str", fn="check")
+    res = ctx.cases("c08", hdr, items, per_file=150, result_ty="str", fn="checkp")
     model_fail = []
     nontriv = 0
     for it, m, r in zip(items, metas, res):
         if r is None or len(r) != 5:
             continue
         im, isp, ms, expl, raised = (ch == "1" for ch in r)
-        desc = {"call": spec_str(m["spec"], m["fun"]), "spec": m["spec"], "fun": list(m["fun"]), "table": m["table"],
+        desc = {"call": plan_str(m["plan"], m["fun"]), "plan": m["plan"], "derived_by": m["pre"], "window_input_rows": m["in_rows"],
+                "withColumn": m["withColumn"], "spec": m["spec"], "fun": list(m["fun"]), "table": m["table"],
                 "rows": TABLES[m["table"]], "verdict(impl=model,impl=spark,model=spark,explicit,raised)": r,
                 "exception": m["exc"], "coq_case": it}
         has_bare = any(mm == "bare" for _, mm in m["spec"]["order"])
@@ -280,13 +416,33 @@ def run(ctx: core.Ctx):
         if bad:
             ctx.broken("spec-conformance", f"{len(bad)} recorded PySpark results differ from the Coq Spark spec; first: "
                        f"{bad[0]['spec']} {bad[0]['fun']}", data=bad[:5])
+    prec_path = os.path.join(core.VERIF, "oracle", "c08_pyspark_plans.jsonl")
+    n_prec = 0
+    if os.path.exists(prec_path):
+        pitems, pmeta = [], []
+        for line in open(prec_path):
+            rc = json.loads(line)
+            plan = [(k, ([tuple(x) for x in a] if k == "order" else (tuple(a) if k == "frame" else a))) for k, a in rc["plan"]]
+            got = [tuple(x) for x in rc["result"]]
+            pitems.append(f"({rel.frame_coq(COLS, [tuple(x) for x in rc['in_rows']])}, {plan_coq(plan)}, {fun_coq(tuple(rc['fun']))}, "
+                          f"(Some {listlit([rel.row_coq(r) for r in got])}))")
+            pmeta.append(rc)
+        pres = ctx.cases("c08prec", hdr, pitems, per_file=150, result_ty="str", fn="checkp")
+        bad = [rc for rc, r in zip(pmeta, pres) if r is not None and r[1] != "1"]
+        n_prec = sum(1 for r in pres if r is not None)
+        n_rec_bad += len(bad)
+        if bad:
+            ctx.broken("spec-conformance-plans", f"{len(bad)} recorded PySpark results for specs built by call sequences / over derived "
+                       f"frames differ from the Coq Spark spec (spark_build + eval_window); first: {bad[0]['plan']} {bad[0]['fun']}", data=bad[:5])
     ctx.coverage.update({
+        "pyspark_plan_recordings_checked": n_prec,
         "evaluations": len(items), "distinct_nontrivial": nontriv,
         "rule": "case = (window spec, function, table); specs from a generator over partition x order keys x 7 ordering "
                 "methods x frame kind x bounds from sentinels/thresholds/-2..2; 19 function shapes; tables with ties and NULL "
                 "order keys; a unique tie-breaker key is appended where Spark itself leaves the value unspecified; "
                 "non-trivial = non-empty table and a partition or order; distinct by (spec, function, table)",
         "histogram_function": hist_fun, "histogram_frame": hist_frame, "histogram_ordering_method": hist_meth,
+        "histogram_frame_derived_by": hist_pre, "histogram_builder_call_sequence": hist_plan,
         "impl_raised": n_raise, "pyspark_recordings_checked": n_rec, "pyspark_recordings_disagree": n_rec_bad,
     })
     ctx.assumptions += [
@@ -307,7 +463,14 @@ def replay(ctx, rp):
     sp["frame"] = tuple(sp["frame"]) if sp["frame"] else None
     f = tuple(r["fun"])
     df = DuckDBSession().createDataFrame([tuple(x) for x in r["rows"]], SCHEMA)
-    d = df.select("id", "p", "k", "v", fun_sf(f, F).over(spec_sf(sp, F, Window)).alias("w"))
+    if r.get("plan") is not None:
+        plan = [(k, ([tuple(x) for x in a] if k == "order" else (tuple(a) if k == "frame" else a))) for k, a in r["plan"]]
+        w = plan_sf(plan, F, Window)
+        print(plan_str(plan, f), "| frame derived by:", r.get("derived_by"))
+        df = apply_pre(df, r.get("derived_by"), F)
+    else:
+        w = spec_sf(sp, F, Window)
+    d = df.select("id", "p", "k", "v", fun_sf(f, F).over(w).alias("w"))
     print(d.sql(optimize=False, dialect="duckdb"))
     for row in d.collect():
         print(row)
